@@ -224,10 +224,10 @@ def run(cx):
                 r.fail(f"{m.rel.split('/')[-1]}/{dotted(n)}", (m, n), f"reads {dotted(n)}")
 
 
-def rule_global_state(cx, rid, mods):
+def rule_global_state(cx, rid, mods, floor=40):
     pm = mods[0]
-    r = cx.rule(rid, "no module-level mutable state is written (or can be written) by parse()/emit(): no empty module-level containers/iterators, no stores through module-level tables, no global/func-attribute rebinding, no mutable defaults, no caches of impure results", floor=40)
-    state_mods = mods + [mod("toolchain/pio.py")]
+    r = cx.rule(rid, "no module-level mutable state is written (or can be written) by parse()/emit(): no empty module-level containers/iterators, no stores through module-level tables, no global/func-attribute rebinding, no mutable defaults, no caches of impure results", floor=floor)
+    state_mods = mods + ([mod("toolchain/pio.py")] if "parse" in pm.funcs else [])
     for m in state_mods:
         mutable_globals = {}
         for name, v in m.consts.items():
@@ -249,7 +249,7 @@ def rule_global_state(cx, rid, mods):
                 mutable_globals[name] = kind
         for name, kind in mutable_globals.items():
             if kind in ("empty-container", "stateful-object"):
-                r.fail(f"{m.rel.split('/')[-1]}:{name}/module-level-{kind}", (m.rel, m.consts[name].lineno), f"module-level {kind} `{name}` can only serve as state shared between transpilations")
+                r.fail(f"{m.rel.split('/')[-1]}:{name}/module-level-{kind}", (m.rel, m.consts[name].lineno), f"module-level {kind} `{name}` can only serve as state shared between calls (other scripts, other instances)")
             else:
                 r.ok(f"{m.rel.split('/')[-1]}:{name} literal table")
         for q, fn in m.funcs.items():
@@ -296,6 +296,8 @@ def rule_global_state(cx, rid, mods):
                     r.check(not impure, f"{q}/cache-decorator", (m, d), "memoisation of a function that returns mutable objects or depends on the per-parse context")
             r.ok(None)
     # parse() builds a fresh context
+    if "parse" not in pm.funcs:
+        return
     pf = pm.func("parse")
     ctx_def = Locals(pf).defs.get("ctx", [])
     fresh = len(ctx_def) == 1 and isinstance(ctx_def[0], ast.Dict) and all(
